@@ -67,7 +67,11 @@ def part_a(ctx):
     for consts in (K, K2):
         c = dict(consts, Protocol=f'"{proto}"')
         cfg = tlc.make_cfg(constants=c, spec="Spec", invariants=["Recoverable", "Fresh", "NoStaleOverNew"])
-        r = tlc.run("DumpProtocol", cfg, coverage=True, timeout=3000)
+        # the module holds both protocols; the actions of the other one are legitimately never taken
+        other = ("Cleanup", "ExistsBak", "ExistsFile", "RemoveBak", "Rename") if proto == "replace" else ("Replace",)
+        if consts["MaxIoFail"] == 0:
+            other = other + ("WriteFail",)
+        r = tlc.run("DumpProtocol", cfg, vacuity=True, allow_untaken=other, timeout=3000)
         ctx.add_tlc(r, f"DumpProtocol {c}")
         design_violated = r["violated"]
         if not design_violated:
